@@ -241,7 +241,8 @@ def harvest_meta(path: Path):
 
 
 def run_history(rec: Recorder, d: Path, drv: str, fam, history: str, case_extra=None, md=None):
-    """Embed all byte strings of `fam` into one container, then apply `history` (chars of BCMRG), checking after each step.
+    """Embed all byte strings of `fam` into one container, then apply `history` (chars of BCMRG, U = delete + re-embed other
+    content at the same path, A = write/delete attributes of every embedded node), checking after each step.
     md: optional {label: pre-harvested core.file metadata} handed to pack_file (else pack_file harvests itself).
     Returns number of (label, step) pairs on which the bytes were read back."""
     case = {"kind": "hist", "driver": drv, "history": history, "labels": [lb for lb, _ in fam]}
@@ -298,6 +299,41 @@ def run_history(rec: Recorder, d: Path, drv: str, fam, history: str, case_extra=
                             paths.append(dst)
                         else:
                             paths[-1] = dst
+            elif op == "U":
+                # the packer's flow for a modified file: delete the node, embed the new content at the same path
+                st, val = "ok", None
+                for label, (bs, paths) in list(emb.items.items()):
+                    if label.endswith("~u") or bs == RESERVED:
+                        continue
+                    p_ = paths[-1]
+                    nb = (bs[::-1] + b"\x01v2") if len(bs) % 2 else bs[: len(bs) // 2]  # other bytes; for even lengths also another (maybe zero) length
+                    if nb == RESERVED:
+                        nb = bs + bs  # (the one value IH5 documents as not storable is not what this step is about)
+                    f2 = src / f"{label}~u{step}.bin"
+                    f2.write_bytes(nb)
+
+                    def upd():
+                        del s.mc[p_]
+                        pack_file(s.mc, f2, target=p_)
+
+                    st1, v1 = guarded(upd, 60)
+                    if rec.check(st1 == "ok", f"c17:op-failed:{drv}:U", f"delete + re-embed at {p_} of {label} failed: {v1}", dict(c, label=label), FN_PACK):
+                        paths.pop()
+                        if not paths:
+                            del emb.items[label]
+                        emb.items[f"{label}~u"] = (nb, [p_])
+            elif op == "A":
+                # touch every embedded node: one attribute written, one deleted again
+                st, val = "ok", None
+                for label, (bs, paths) in emb.items.items():
+                    for p_ in paths:
+                        def touch():
+                            s.mc[p_].attrs["note"] = step
+                            s.mc[p_].attrs["tmp"] = 1
+                            del s.mc[p_].attrs["tmp"]
+
+                        st1, v1 = guarded(touch, 60)
+                        rec.check(st1 == "ok", f"c17:op-failed:{drv}:A", f"writing an attribute of {p_} failed: {v1}", dict(c, label=label), [])
             else:
                 raise ValueError(op)
             if op in "BRG" and not rec.check(st == "ok", f"c17:op-failed:{drv}:{op}", f"history step {op} failed: {val}", c, []):
@@ -571,6 +607,12 @@ def run(tier: str, seed: int) -> dict:
                     # quick: pack_file's own harvesting is exercised on h5 for every byte string; IH5 gets the same metadata pre-harvested
                     hist(drv, b, CANONICAL[drv], md=None if (thorough or drv == "h5") else md)
                     reached["canonical_batches"] += 1
+            # ---- files modified later: re-embedded at the same path in one patch, touched (attributes) in a later one ----------
+            upd_fam = [(lb, by_label[lb]) for lb in QUICK_SMALL]
+            for drv in drivers:
+                for h in (("BUBAR", "UBABGR", "BUABUR") if drv != "h5" else ("UAR",)):
+                    hist(drv, upd_fam, h, md=None)
+                    reached["update_hist"] = reached.get("update_hist", 0) + 1
             # ---- all histories up to length L over the alphabet for a few representative byte strings --
             small = [(lb, by_label[lb]) for lb in QUICK_SMALL] + [("reserved7f", RESERVED)]
             done_short = True
@@ -633,7 +675,7 @@ def run(tier: str, seed: int) -> dict:
              "as neighbours, (byte string) for the harvester and (byte string, algorithm) for util.hashsums",
         bound=f"{reached['bytes']} byte strings (lengths 0..{max(len(b) for _, b in fam_all)}); drivers {','.join(drivers)}; canonical histories "
               f"{ {k: v for k, v in CANONICAL.items() if k in drivers} } on all byte strings (containers of <= {BATCH} files): {reached['canonical_batches']} containers; "
-              f"all histories of length <= {L}{' (mf: <= 1)' if thorough else ''} over {{C,M,R}} (h5) / {{B,C,M,R,G}} (IH5) on {len(QUICK_SMALL) + 1} representative byte strings: {reached['short_hist']} containers"
+              f"all histories of length <= {L}{' (mf: <= 1)' if thorough else ''} over {{C,M,R}} (h5) / {{B,C,M,R,G}} (IH5) on {len(QUICK_SMALL) + 1} representative byte strings: {reached['short_hist']} containers; {reached.get('update_hist', 0)} update histories (U = delete + re-embed other content at the same path, A = attribute writes on every embedded node; BUBAR, UBABGR, BUABUR on IH5, UAR on h5)"
               + (f"; all histories of length <= 2 on all byte strings (h5; ih5: length 2 on the 40 base-family strings): {reached['allbytes_hist']} histories; single-file containers: {reached['single']}; "
                  f"random histories of length 4..7: {reached['random_hist']}" if thorough else "")
               + f"; {reached['reads']} (byte string, step) read-backs; reserved value: {len(ROUTES)} routes x base/patch container; {len(neighbours(thorough)) - 1} neighbour values (1-byte: all 255; 2-byte with 0x7f: {"all 511" if thorough else "spread of 27"})",
